@@ -972,24 +972,52 @@ fn sec_filter_response(s: &mut Session, cx: &Ctx, rng: &mut Rng, n_cfg: usize, n
 	s.notes.push(format!("filter: {} measured responses compared with the prototype + bilinear transform; worst |H_meas - H_spec| / (|H_spec| + 0.2) = {:.3e} at {}", st.count, st.worst_rel, st.worst_at));
 }
 
-/// outside the guard of the response theorems (filter_low_cutoff_clamped_refuted): a requested frequency
-/// below fs/10000 is clamped.  Replayed on the implementation and recorded as a note.
-fn sec_low_cutoff_note(s: &mut Session, cx: &Ctx) {
-	let (sr, fc, res) = (192000u32, 10.0f64, 0.0f64);
-	let k = 2.0 - 1.9 * res;
-	let d = Filter { mode: 0, cutoff: fc, res, mix: 1.0 };
-	s.eval_only("witness_low_cutoff_clamped");
-	let clamped = sr as f64 * 1e-4;
-	if let Some((hs, tail)) = measure_ir(cx, &d, sr, ir_len(sr, fc, k), &[fc, clamped]) {
-		let (at_req, at_clamp) = (hs[0].abs(), hs[1].abs());
-		let design = 1.0 / k;
-		if tail <= 1e-6 && close(at_clamp, design, 5e-3, 0.0) && !close(at_req, design, 5e-2, 0.0) {
-			s.notes.push(format!(
-				"witness (outside the guard fc >= fs/10000): {:?} @ {sr} Hz has the corner gain 1/k = {design} at {clamped} Hz (measured {at_clamp:.4}), not at the requested {fc} Hz (measured {at_req:.4}): cutoff/sample_rate is clamped to [0.0001, 0.5]",
-				d
-			));
-		} else {
-			s.notes.push(format!("low-cutoff witness no longer reproduces: |H({fc} Hz)| = {at_req:.4}, |H({clamped} Hz)| = {at_clamp:.4}, tail {tail:e}"));
+/// known finding F42 (class filter_cutoff_clamped_below_1e-4_fs; Coq: filter_low_cutoff_clamped_refuted):
+/// filter.rs / eq_filter.rs clamp frequency/sample_rate to [0.0001, 0.5], so a requested frequency below
+/// fs/10000 is realised at fs/10000.  Fixed witnesses, replayed every run; the failure is attributed to the
+/// class only when the requested fc/fs < 1e-4 AND the measured corner / centre is not where it was requested.
+const CLASS_CLAMP: &str = "filter_cutoff_clamped_below_1e-4_fs";
+fn sec_low_cutoff_witness(s: &mut Session, cx: &Ctx) {
+	// --- filter: 10 Hz low-pass at 192 kHz
+	{
+		let (sr, fc, res) = (192000u32, 10.0f64, 0.0f64);
+		let k = 2.0 - 1.9 * res;
+		let d = Filter { mode: 0, cutoff: fc, res, mix: 1.0 };
+		s.eval_only("witness_low_cutoff_clamped");
+		let clamped = sr as f64 * 1e-4;
+		if let Some((hs, tail)) = measure_ir(cx, &d, sr, ir_len(sr, fc, k), &[fc, clamped]) {
+			let (at_req, at_clamp) = (hs[0].abs(), hs[1].abs());
+			let design = 1.0 / k;
+			if tail <= 1e-6 && fc / (sr as f64) < 1e-4 && !close(at_req, design, 1e-2, 0.0) {
+				s.fail(
+					format!("{:?} @ {} Hz", d, sr),
+					format!("requested cutoff {fc} Hz (below fs/10000 = {clamped} Hz): gain at {fc} Hz is {at_req:.4}, the design has 1/k = {design} at the cutoff; that gain is found at {clamped} Hz instead (measured {at_clamp:.4}): cutoff/sample_rate is clamped to [0.0001, 0.5]"),
+					Some(CLASS_CLAMP),
+				);
+			} else {
+				s.notes.push(format!("F42 witness no longer reproduces for the filter: |H({fc} Hz)| = {at_req:.4} (design {design}), |H({clamped} Hz)| = {at_clamp:.4}, tail {tail:e}"));
+			}
+		}
+	}
+	// --- EQ: +12 dB bell at 12 Hz, 192 kHz
+	{
+		let (sr, fc, gain, q) = (192000u32, 12.0f64, 12.0f32, 2.0f64);
+		let d = Eq { kind: 0, freq: fc, gain, q };
+		s.eval_only("witness_low_cutoff_clamped");
+		let clamped = sr as f64 * 1e-4;
+		let a = 10f64.powf(gain as f64 / 40.0);
+		if let Some((hs, tail)) = measure_ir(cx, &d, sr, ir_len(sr, fc, 1.0 / (q * a)), &[fc, clamped]) {
+			let (at_req, at_clamp) = (hs[0].abs(), hs[1].abs());
+			let want = 10f64.powf(gain as f64 / 20.0);
+			if tail <= 1e-6 && fc / (sr as f64) < 1e-4 && !close(at_req, want, 1e-2, 0.0) {
+				s.fail(
+					format!("{:?} @ {} Hz", d, sr),
+					format!("requested centre {fc} Hz (below fs/10000 = {clamped} Hz): gain at {fc} Hz is {at_req:.4}, requested {gain} dB = {want:.4}; that gain is found at {clamped} Hz instead (measured {at_clamp:.4}): frequency/sample_rate is clamped to [0.0001, 0.5]"),
+					Some(CLASS_CLAMP),
+				);
+			} else {
+				s.notes.push(format!("F42 witness no longer reproduces for the EQ: |H({fc} Hz)| = {at_req:.4} (requested {want:.4}), |H({clamped} Hz)| = {at_clamp:.4}, tail {tail:e}"));
+			}
 		}
 	}
 }
@@ -1376,7 +1404,7 @@ pub fn run(args: &Args) {
 	sec_traces(&mut s, &cx, &mut rng, 10 * big);
 	sec_filter_response(&mut s, &cx, &mut rng, 400 * big, 100 * big);
 	sec_eq_response(&mut s, &cx, &mut rng, 300 * big);
-	sec_low_cutoff_note(&mut s, &cx);
+	sec_low_cutoff_witness(&mut s, &cx);
 	sec_reverb(&mut s, &cx, &mut rng, 20 * big, 40 * big, 12 * big);
 	sec_compressor(&mut s, &cx, &mut rng, 150 * big);
 	s.finish();
